@@ -26,7 +26,10 @@ def cases_for(kernels, Ls):
     return out
 
 
-def run(ctx, kernels=None, configs=("stable",)):
+def run(ctx, kernels=None, configs=("stable",), bounds_only=False):
+    """bounds_only: report only accesses outside the slices / to the wrong slice seen in the symbolic run of the REAL kernels
+    (concrete failing inputs); a merely different structure (a harmless rewrite) is not reported (used by C01, whose property
+    is about bounds only)."""
     kernels = kernels or KERNELS
     Ls = [1, 2, 3, 4, 5, 8, 16] if ctx.tier == "quick" else [1, 2, 3, 4, 5, 8, 16, 32, 64]
     cases = cases_for(kernels, Ls)
@@ -43,7 +46,9 @@ def run(ctx, kernels=None, configs=("stable",)):
         imp = runner.impl("sym", cases, config=cfg)
         n_bad = 0
         for c, a, b in zip(cases, imp, mod):
-            if a != b:
+            if a != b and bounds_only:
+                explain(ctx, c, cfg, a, b)
+            elif a != b:
                 n_bad += 1
                 if n_bad <= 3:
                     k, L, d = c.split()[:3]
